@@ -36,6 +36,10 @@ pub trait Compiler {
 
     fn compile(&mut self, tir: &AnyTir) -> Result<CompiledTx, Error>;
     fn reduce_op(&self, op: Self::CompilerOp) -> Result<Self::Expression, crate::reduce::Error>;
+
+    /// Forgets whatever earlier transactions left in the compiler, so that the next one is
+    /// evaluated as it would be on a new instance.
+    fn reset(&mut self) {}
 }
 
 impl<C> Visitor for C
